@@ -17,3 +17,20 @@ Theorem C04_ident_roundtrip_backends :
     (iden_prepare (quote_char b) name ++ rest) = Some (name, rest).
 Proof. intros b name rest H. destruct b; exact (ident_roundtrip _ name rest H). Qed.
 Print Assumptions C04_ident_roundtrip_backends.
+
+(* In the context of a statement: a prepared identifier is exactly ONE quoted-identifier token of the engine's
+   statement lexer (Spec/EngTok.v), decoding to the supplied name; by the seam theorem it stays one token between
+   any texts that respect the seam conditions (in particular: what follows must not start with a quote character). *)
+Require Import SQV.Spec.EngTok SQV.Spec.EngBoundary SQV.Proofs.EngTokProofs SQV.Proofs.EngLiteralTokProofs.
+Theorem C04_identifier_is_one_statement_token :
+  forall b name, eng_tokens b (iden_prepare (quote_char b) name) = Some [TkId name].
+Proof. exact identifier_is_one_token. Qed.
+Print Assumptions C04_identifier_is_one_statement_token.
+
+Theorem C04_identifier_in_context :
+  forall b name pre tpre post tpost,
+  eng_tokens b pre = Some tpre -> eng_tokens b post = Some tpost ->
+  join_ok tpre (iden_prepare (quote_char b) name ++ post) = true -> join_ok [TkId name] post = true ->
+  eng_tokens b (pre ++ iden_prepare (quote_char b) name ++ post) = Some (tpre ++ TkId name :: tpost).
+Proof. exact identifier_in_context. Qed.
+Print Assumptions C04_identifier_in_context.
